@@ -23,7 +23,7 @@ def main(ctx):
     seeds = [ctx.seed * 1000 + i for i in range(nprog)]
 
     # a few almost empty databases too (nothing or a handful of writes, all still in the journal, no table yet)
-    tiny = {ctx.seed * 1000 + 900 + i: i for i in range(4 if ctx.quick else 12)}
+    tiny = {ctx.seed * 1000 + 900 + i: i // 2 for i in range(4 if ctx.quick else 12)}
     seeds += list(tiny)
 
     def drive(seed):
